@@ -77,14 +77,83 @@ def exhaustive_requests(ctx, depth):
     ctx.coverage["exhaustive_note"] = f"all DAGs on <= 3 operators x all request sequences whose proper prefixes are accepted, depth {depth}"
 
 
+def assignment_requests(ctx, deep):
+    """`Assignment(...)` is the other way operators change state: for all DAGs on <= 3 operators, every state reachable by <= 3 accepted requests, and every
+    operator list of length <= 2 (<= 3 when deep) -- with repetitions, in any order, with and without `is_resume` -- the constructor must accept / refuse
+    exactly as the model's `mkAssignment` does and leave the same states and counts (operators moved before a refusal stay ASSIGNED)"""
+    if REPO not in sys.path:
+        sys.path.insert(0, REPO)
+    from eudoxia.workload.pipeline import Pipeline
+    from eudoxia.workload import OperatorState
+    from eudoxia.executor.assignment import Assignment
+    from eudoxia.utils import Priority
+    S = list(OperatorState)
+    drv = Driver()
+    n_cases = 0
+    try:
+        for n in (1, 2, 3):
+            for dag in all_dags(n):
+                def build(prefix):
+                    p = Pipeline("p", Priority.BATCH_PIPELINE)
+                    ops = []
+                    for par in dag:
+                        ops.append(p.new_operator([ops[i] for i in par] if par else None))
+                    rt = p.runtime_status()
+                    for (o, t) in prefix:
+                        try:
+                            rt.transition(ops[o], S[t])
+                        except AssertionError:
+                            return None
+                    return p, ops, rt
+                reqs = [(o, t) for o in range(n) for t in range(6)]
+                prefixes, frontier = [[]], [[]]
+                for _ in range(4 if deep else 3):          # three accepted requests reach COMPLETED and FAILED
+                    frontier = [pf + [a] for pf in frontier for a in reqs if build(pf + [a]) is not None]
+                    prefixes += frontier
+                lists = [list(x) for k in range(1, (3 if deep else 2) + 1) for x in itertools.product(range(n), repeat=k)]
+                for pf in prefixes:
+                    for lst in lists:
+                        for resume in (False, True):
+                            p, ops, rt = build(pf)
+                            drv.send("reset"); drv.send("cfg 1 64 1280 1 0 1 1 64"); drv.send("pipe 3")
+                            for par in dag:
+                                drv.send(f"op 0 {','.join(map(str, par)) if par else '-'}")
+                            for (o, t) in pf:
+                                drv.send(f"trans 0 {o} {t}")
+                            try:
+                                Assignment(ops=[ops[i] for i in lst], cpu=1, ram=1, priority=Priority.BATCH_PIPELINE, pool_id=0, pipeline_id="p", is_resume=resume)
+                                ok = True
+                            except AssertionError:
+                                ok = False
+                            m = drv.send(f"assign 0 1 64 3 {','.join(f'0:{i}' for i in lst)}")
+                            ist = "".join(STATES[S.index(rt.operator_states[x])] for x in ops)
+                            icnt = [rt.state_counts[s_] for s_ in S]
+                            n_cases += 1
+                            ctx.coverage["evaluations"] += 1
+                            hist = [sum(1 for x in ops if rt.operator_states[x] == s_) for s_ in S]
+                            case = {"dag": dag, "prefix": pf, "assignment": lst, "is_resume": resume}
+                            if ok != m["ok"] or ist != m["st"][0] or icnt != m["cnt"][0] or icnt != hist:
+                                what = (f"Assignment(ops={lst}, is_resume={resume}) after the requests {pf} on the DAG {dag}: "
+                                        f"{'accepted' if ok else 'refused'}, states {ist}, counts {icnt}; the state machine says "
+                                        f"{'accepted' if m['ok'] else 'refused'}, states {m['st'][0]}, counts {m['cnt'][0]}")
+                                ctx.violations.append({"what": what, "layer": "status", "assign_case": case, "sig": {"clause": "assignment-constructor"}})
+                                return
+    finally:
+        drv.close()
+        ctx.sit("assignment_constructor_cases", n_cases)
+
+
 def run(ctx):
     exhaustive_requests(ctx, 3 if ctx.quick() else 4)
+    assignment_requests(ctx, not ctx.quick())
     k = 1 if ctx.quick() else 8
     elayer.run_scenarios(ctx, "C02", mix(ctx, 120 * k, 40 * k, 0, 20 * k, 20 * k, bias={"unknown_pool": 0, "zero_frac": 0}), PROJ)
 
 
 def replay(ctx, rep):
-    if "requests" in rep:
+    if "assign_case" in rep:
+        assignment_requests(ctx, len(rep["assign_case"]["assignment"]) > 2)
+    elif "requests" in rep:
         exhaustive_requests(ctx, 3)
     else:
         elayer.replay_scenario(ctx, "C02", rep, PROJ)
